@@ -151,7 +151,8 @@ class Shaper(object):
         self._url_graph_input = url_graph_input
         self._list_of_url_input = list_of_url_input
         self._rdflib_graph = rdflib_graph
-        self._namespaces_dict = namespaces_dict if namespaces_dict is not None else {}
+        # private copy: the shapes namespace (and parsed prefixes) are written into it, the caller's dict must not change
+        self._namespaces_dict = dict(namespaces_dict) if namespaces_dict is not None else {}
         self._instantiation_property = \
             unprefixize_uri_if_possible(instantiation_property,
                                         include_corners=False,
